@@ -303,6 +303,7 @@ func (c *Ctx) recoveryNameGuards(rule string) {
 
 func c20(c *Ctx) {
 	defer c20hashCoversBodies(c)
+	defer c20eraseVisitsAll(c)
 	P, R := c.P, c.R
 	R.Explain("R20.1", "T-MUST: in Mailbox.Append every path on which AppendRegular returned an error reaches the transaction that calls actionCreateRecoveredMessage, except on the true edge of errors.Is(err, connector.ErrMessageSizeExceedsLimits).")
 	R.Explain("R20.2", "T-CALLERS: AppendRegular is called only by Mailbox.Append; handleAppend appends only through AppendOnlyMailbox.Append and sends the APPENDUID OK only on the nil edge with the UID Append returned.")
@@ -641,4 +642,62 @@ func c20hashCoversBodies(c *Ctx) {
 		R.Check(bad == "", "R20.6", c.name(cl)+"|every-leaf-body-hashed", P.Pos(cl.Pos()), "every leaf part contributes its body to the hash", "the walk callback can return nil for a leaf part ("+bad+") without hashing its body: two rejected messages that differ only in that part get the same hash and the second one is dropped as a known duplicate (message lost)")
 	}
 	R.Min("R20.6", "walk callbacks that hash bodies", n, 1)
+}
+
+// c20eraseVisitsAll (R20.7): forgetting the hashes of removed messages handles every id it is given.
+func c20eraseVisitsAll(c *Ctx) {
+	P, R := c.P, c.R
+	R.Explain("R20.7", "once per distinct message - and again after it left: MessageHashesMap.Erase (no error result) leaves its loop over the ids only by exhaustion - no break and no return inside the loop - and every iteration deletes the id's entry.  An early exit keeps the hashes of the remaining ids; a later rejected APPEND of the same bytes is then taken for a known duplicate and dropped although the message is in neither mailbox.")
+	f := c.fn("R20.7", "internal/utils.(*MessageHashesMap).Erase")
+	if f == nil {
+		return
+	}
+	ids := f.Params[len(f.Params)-1]
+	n := 0
+	for _, h := range f.Blocks {
+		body := engine.LoopBody(h)
+		if body == nil {
+			continue
+		}
+		reads := false
+		for b := range body {
+			for _, in := range b.Instrs {
+				if ia, ok := in.(*ssa.IndexAddr); ok && engine.AnyBackward(ia.X, engine.FlowOpts{Loads: true}, func(x ssa.Value) bool { return x == ssa.Value(ids) }) {
+					reads = true
+				}
+			}
+		}
+		if !reads {
+			continue
+		}
+		n++
+		bad := ""
+		for b := range body {
+			if b == h {
+				continue
+			}
+			for _, s := range b.Succs {
+				if !body[s] {
+					bad = P.Pos(firstPosOf(s))
+					if bad == "?" || bad == "" {
+						bad = P.Pos(firstPosOf(b))
+					}
+				}
+			}
+		}
+		R.Check(bad == "", "R20.7", c.name(f)+"|loop over ids", P.Pos(firstPosOf(h)), "left only by exhaustion", "the loop over the ids can be left before all ids were handled ("+bad+"): the hashes of the remaining ids stay recorded and a later APPEND of those bytes is dropped as a duplicate")
+		// every iteration deletes from idToHash: a delete(map, id) builtin call post-dominates the body entry... approximated: present in the body
+		del := false
+		for b := range body {
+			for _, in := range b.Instrs {
+				if call, ok := in.(*ssa.Call); ok {
+					if bi, ok := call.Call.Value.(*ssa.Builtin); ok && bi.Name() == "delete" {
+						del = true
+					}
+				}
+			}
+		}
+		R.Check(del, "R20.7", c.name(f)+"|loop deletes", P.Pos(firstPosOf(h)), "the loop deletes map entries", "the loop over the ids no longer deletes anything")
+	}
+	R.Min("R20.7", "loops over the ids in Erase", n, 1)
 }
